@@ -18,7 +18,7 @@ Definition eqb_reloaded (a b : reloaded) : bool :=
 Definition unloaded_after (u : list string) (o : op) (e : error) (m_before : list wallet) : list string :=
   match o, e with
   | Unload n, _ => match find n m_before with Some _ => if mem_str n u then u else n :: u | None => u end
-  | Create n _ _ _ _ _ _ false _, None => del_str n u
+  | Create n _ _ _ _ _ _ _ false _, None => del_str n u
   | _, _ => u
   end.
 Fixpoint first_bad (i : Z) (u : list string) (m0 : list wallet) (r0 : reloaded)
